@@ -301,6 +301,23 @@ def run(ctx: Ctx) -> int:
         ok = not extra and any("_name_parser_map" in ast.unparse(t) for t in pos) and all(any("is None" in ast.unparse(t) and "_required" in ast.unparse(t) and pol for t, pol in guard_chain(r, stop=gs)) for r in early)
     ctx.oblige("C17.f", ok, rz[0] if rz else gs, "when a decision is asked for, a missing required subcommand or a name outside the choices raises; only 'nothing given, nothing required' returns without a subcommand" if ok else "a required subcommand that cannot be determined (or an unknown name) is no longer an error on every path", fn=gs, construct="required / unknown raises")
 
+    # environment variable names: each subcommand level extends the prefix by the subcommand's NAME, which may hold a
+    # dash (`dry-run`); the name looked up in the environment is built from the prefix with dashes replaced
+    gev = ctx.func("_formatters:get_env_var")
+    uses = [n_ for n_ in ast.walk(gev) if isinstance(n_, ast.Attribute) and n_.attr == "env_prefix" and isinstance(n_.ctx, ast.Load) and not isinstance(getattr(n_, "_jv_parent", None), ast.Call)]
+    val_uses = [u for u in uses if not (isinstance(getattr(u, "_jv_parent", None), ast.Call) and call_leaf(getattr(u, "_jv_parent", None)) == "isinstance")]
+
+    def _normalised(u) -> bool:
+        p_ = getattr(u, "_jv_parent", None)
+        if isinstance(p_, ast.Attribute) and p_.attr == "replace":
+            c_ = getattr(p_, "_jv_parent", None)
+            return isinstance(c_, ast.Call) and [const_str(a) for a in c_.args] == ["-", "_"]
+        return False
+
+    whole = [c for c in calls_in(gev) if call_leaf(c) == "replace" and [const_str(a) for a in c.args] == ["-", "_"] and isinstance(c.func.value, ast.Name)]
+    ok = bool(val_uses) and (all(_normalised(u) for u in val_uses if isinstance(getattr(u, "_jv_parent", None), (ast.Attribute, ast.BinOp))) and any(_normalised(u) for u in val_uses) or bool(whole))
+    ctx.oblige("C17.e", ok, val_uses[0] if val_uses else gev, "the environment variable name is built from the prefix with dashes replaced (a subcommand named `dry-run` is addressed as ..._DRY_RUN_...)" if ok else "get_env_var uses the parser's env_prefix as it is: the prefix of a subcommand parser contains the subcommand's name, and for a name with a dash the variable looked up (APP_DRY-RUN_X) can never be set - the subcommand loses its environment settings", fn=gev, construct="env var name normalised")
+
     # ---------------- C17.h intermediate folds do not decide ---------------------------------------------------
     # a configuration that is folded in BEFORE the command line / object has been seen (a default config file, a
     # --cfg item) must not pick a subcommand: picking deletes the other sections, and the source that names the
